@@ -161,7 +161,9 @@ Judge_unfill(e) ==
     Chk("C15", "VERDICT", "reported line ending is not 'CRLF iff there is an ending and all endings are CRLF'",
         ~HasEmptyLine(e.s) => (e.crlf = AllCrlf(e.s))),
     Chk("C15", "DRIFT", "unfill differs from the operational model",
-        ~u.fault /\ e.text = u.text /\ e.ii = u.ii /\ e.si = u.si /\ e.width = u.width /\ e.crlf = u.crlf) >>)
+        ~u.fault /\ e.text = u.text /\ e.ii = u.ii /\ e.si = u.si /\ e.width = u.width /\ e.crlf = u.crlf),
+    Chk("C15", "DRIFT", "hook unfill.options: state after the first loop differs from the specification's",
+        Len(e.hk) = 1 /\ e.hk[1] = <<u.width, ByteLen(u.ii), ByteLen(u.si)>>) >>)
 
 \* the filled form breaks the paragraph at spaces only: its lines, without their indents, joined by single spaces
 \* are the paragraph again
@@ -213,6 +215,8 @@ Judge_c17(e) ==
     Chk("C17", "VERDICT", "lines of fill_inplace (trailing spaces trimmed) differ from wrap with the documented options",
         LET ls == SplitChar(e.res, LF) IN [k \in 1..Len(ls) |-> TrimEndSpaces(ls[k])] = e.wl),
     Chk("C17", "DRIFT", "fill_inplace differs from the operational model", e.res = FillInplaceOp(e.text, e.width)),
+    Chk("C17", "DRIFT", "hook fill_inplace.index: the byte offsets pushed by the code differ from the specification's",
+        {BOff(e.text)[p] + 1 : p \in InplaceIdx(e.text, e.width)} = {e.hk[k][2] : k \in 1..Len(e.hk)} /\ Len(e.hk) = Cardinality(InplaceIdx(e.text, e.width))),
     Chk("C17", "DRIFT", "wrap with the documented options differs from the operational model",
         e.wl = LineStrings(WrapFF(e.text, InplaceOpts(e.width), [j \in 1..Len(SplitCharRanges(e.text, LF)) |-> {}]))) >>)
 
@@ -223,7 +227,9 @@ Judge_dedent(e) ==
   On("C04", << Chk("C04", "VERDICT", "dedent panicked", Ok(e)) >>) \o
   On("C18", IF ~Ok(e) THEN << Chk("C18", "VERDICT", "dedent panicked", FALSE) >> ELSE <<
     Chk("C18", "VERDICT", "dedent does not remove exactly the longest common whitespace margin of the non-blank lines", e.res = DedentDecl(e.s)),
-    Chk("C18", "DRIFT", "dedent differs from the operational model", e.res = DedentOp(e.s)) >>)
+    Chk("C18", "DRIFT", "dedent differs from the operational model", e.res = DedentOp(e.s)),
+    Chk("C18", "DRIFT", "hook dedent.margin: the margin computed by the code differs from the specification's",
+        Len(e.hk) = 1 /\ e.hk[1] = <<ByteLen(Margin(Lines(e.s)))>>) >>)
 
 Judge_c18(e) ==
   On("C18", IF ~Ok(e) THEN << Chk("C18", "VERDICT", "dedent / indent panicked", FALSE) >> ELSE <<
@@ -262,7 +268,9 @@ Judge_c20(e) ==
     Chk("C20", "VERDICT", "rows are narrower than gaps plus columns",
         plain => \A r \in 1..Len(e.rows) : DW(e.rows[r]) >= DW(e.lg) + DW(e.rg) + (e.cols - 1) * DW(e.mg) + e.cols * cw),
     Chk("C20", "DRIFT", "rows differ from the operational model (remainder = inner width mod column width)",
-        e.rows = ColumnsOp(e.wl, e.o.width, e.cols, e.lg, e.mg, e.rg)) >>)
+        e.rows = ColumnsOp(e.wl, e.o.width, e.cols, e.lg, e.mg, e.rg)),
+    Chk("C20", "DRIFT", "hook wrap_columns.layout: inner width / column width / line counts differ from the specification's",
+        Len(e.hk) = 1 /\ e.hk[1] = <<inner, cw, Len(e.wl), LinesPerColumn(Len(e.wl), e.cols)>>) >>)
 
 (* ------------------------------------------------------------------------- *)
 (* the std model is itself checked (DESIGN 3.5)                              *)
